@@ -337,7 +337,7 @@ async fn two_deferred_requests(l: &mut Loose<8>, gap_ms: u64, poke: bool) -> Out
             out.index_files_checked += checked;
             break;
         }
-        if t0.elapsed() > Duration::from_secs(4) {
+        if t0.elapsed() > Duration::from_secs(10) {
             if !s.verif_worker_alive() {
                 out.violation = Some(("worker-dead".into(), "worker died".into()));
             } else {
